@@ -254,6 +254,8 @@ async fn run_workload_f(
 
 #[tokio::main(flavor = "current_thread")]
 async fn main() {
+    // sequential driver: updates send only the fields that change (see coll::fields_for_update)
+    unsafe { std::env::set_var("VERIF_PARTIAL_UPDATE", "1") };
     let args: Vec<String> = std::env::args().collect();
     let workloads: Value = serde_json::from_str(&std::fs::read_to_string(&args[1]).unwrap()).unwrap();
     let mode = args[4].as_str();
